@@ -22,8 +22,8 @@ def build(ctx):
     return ctx.translate(shim, ROOTS, 'c15.c', stubfiles=['common.stubs', 'c15.stubs'], models=['cxx.c', 'stubs.c', 'poco_sock.c'])
 
 def us(mainb, digits, sock, chunk, ee, copy, strlen=97):
-    return ['main.%d:%d' % (i, mainb) for i in range(0, 8)] + [RD + '.0:%d' % digits, SR + '.0:%d' % sock, RB + '.0:%d' % chunk, EE + '.0:%d' % ee,
-            AT + '.0:%d' % digits, CMP + '.0:9', 'vf_copy.0:%d' % copy, 'x_strlen.0:%d' % strlen]
+    return ['main.%d:%d' % (i, mainb) for i in range(0, 10)] + [RD + '.0:%d' % digits, RD + '.1:%d' % digits, RD + '.2:%d' % digits, SR + '.0:%d' % sock, RB + '.0:%d' % chunk, EE + '.0:%d' % ee,
+            AT + '.0:%d' % digits, CMP + '.0:9', 'vf_copy.0:%d' % copy, 'x_strlen.0:%d' % max(strlen, 28)]   # (strlen also runs over the 25-character literal of PeerResetConnection)
 
 def valid(ctx, name, m, dig, minb, maxb, split, tier, timeout):
     stream = m * (14 + dig + maxb + 7); chunk = max(13, maxb)
@@ -38,11 +38,11 @@ def valid(ctx, name, m, dig, minb, maxb, split, tier, timeout):
 def corrupt(ctx, name, L, fixp, mode, tier, timeout, kfdefs, lenc=None, tpl=0, backend='default'):
     """mode: 'all' = every chunking, 'split' = one arbitrary split point per request, 'whole' = one chunk per request"""
     chunk = max(13, L - 13)
-    defs = kfdefs + ['L=%d' % L, 'FIXP=%d' % fixp, 'TPL=%d' % tpl, 'STREAM_MAX=%d' % L, 'VF_CHUNK_MAX=%d' % chunk, 'VF_MAXCOPY=%d' % (L + 1)] + {'all': [], 'split': ['VF_SPLIT1'], 'whole': ['VF_WHOLE']}[mode] + (['LENC=%d' % lenc] if lenc else [])
+    defs = kfdefs + ['L=%d' % L, 'FIXP=%d' % fixp, 'TPL=%d' % tpl, 'STREAM_MAX=%d' % L, 'VF_CHUNK_MAX=%d' % chunk, 'VF_MAXCOPY=%d' % max(L + 1, 26)] + {'all': [], 'split': ['VF_SPLIT1'], 'whole': ['VF_WHOLE']}[mode] + (['LENC=%d' % lenc] if lenc else [])
     shape = {0: 'arbitrary bytes', 1: 'bytes of the shape "8=FIX.4.2|9=" <1 arbitrary byte> SOH <arbitrary bytes>', 2: 'bytes of the shape "8=FIX.4.2|9=" <10 arbitrary bytes> SOH <arbitrary bytes>',
-             3: 'bytes of the shape <13 arbitrary bytes> "1"* SOH'}[tpl]
+             3: 'bytes of the shape <13 arbitrary bytes> "1"* SOH', 4: 'bytes of the shape "8=FIX.4.2|9" <3 arbitrary bytes> SOH <arbitrary bytes>'}[tpl]
     ctx.add(Harness(name, VERIF + '/harness/C15_corrupt.c', defines=defs, unwind=4, backend=backend,
-                    unwindset=us(L + 2, L - 13 + 2, {'all': chunk + 2, 'split': 3, 'whole': 3}[mode], chunk + 1, L + 2, L + 3, strlen=L + 2),
+                    unwindset=us(L + 2, L - 13 + 2, {'all': chunk + 2, 'split': 4, 'whole': 3}[mode], chunk + 1, L + 2, max(L + 1, 26) + 2, strlen=L + 2),
                     timeout=timeout, mem_gb=16, functions=FUN, stubs=STUBS, tier=tier,
                     bounds='stream of %s %s%s; %s; %s' % (('exactly %d' % lenc) if lenc else ('0..%d' % L), shape, (' after the fixed text "8=FIX.4.2|9="' if fixp and not tpl else ''),
                         {'all': 'all chunkings', 'split': 'at most two chunks per request (arbitrary split point)', 'whole': 'one chunk per request'}[mode], SCALE),
@@ -54,7 +54,8 @@ def run(ctx):
     q = 'quick'; t = 'thorough'
     valid(ctx, 'C15_valid_m1_d1_split', 1, 1, 1, 9, True, q, 600)
     corrupt(ctx, 'C15_len_L24_split', 24, 12, 'split', q, 600, defs)                       # BodyLength field and body arbitrary, any length up to 24
-    corrupt(ctx, 'C15_any_L20_split', 20, 0, 'split', q, 600, defs)                        # whole preamble arbitrary
+    corrupt(ctx, 'C15_any_L16_split', 16, 0, 'split', q, 600, defs)                        # whole preamble arbitrary
+    corrupt(ctx, 'C15_tag2_L27_whole', 27, 11, 'whole', q, 600, defs, lenc=27, tpl=4)       # second field's tag arbitrary
     corrupt(ctx, 'C15_len1_L32_whole', 32, 12, 'whole', q, 600, defs, lenc=32, tpl=1)      # one-byte BodyLength field (non-numeric lengths)
     corrupt(ctx, 'C15_len10_L36_whole', 36, 12, 'whole', q, 600, defs, lenc=36, tpl=2)     # ten-byte BodyLength field (wrap-around of unsigned)
     corrupt(ctx, 'C15_longfield_L35_whole', 35, 0, 'whole', q, 600, defs, lenc=35, tpl=3)  # long first field / digits-only garbage (tag[32], val[FLD])
@@ -63,6 +64,7 @@ def run(ctx):
     valid(ctx, 'C15_valid_m1_d2_all', 1, 2, 10, 12, False, t, 3000)
     valid(ctx, 'C15_valid_m2_d2_all', 2, 2, 10, 11, False, t, 3000)
     corrupt(ctx, 'C15_len_L34_split', 34, 12, 'split', t, 3000, defs)
+    corrupt(ctx, 'C15_any_L20_split', 20, 0, 'split', t, 3000, defs)
     corrupt(ctx, 'C15_any_L24_all', 24, 0, 'all', t, 3000, defs)
     corrupt(ctx, 'C15_any_L36_split', 36, 0, 'split', t, 3000, defs)
     ctx.assumptions += ['socket model: receiveBytes never returns a negative value (EAGAIN spinning and socket errors outside the claim); stream end = 0 = peer closed',
